@@ -101,7 +101,9 @@ FILLER_PRE = ["Today is", "the meeting was", "please note:", "we met",
               "reminder, the deadline is", "scheduled for", "it was",
               "roughly"]
 FILLER_POST = ["roughly", "we think", "or so", "for the meeting", "sharp",
-               "please", "in the office"]
+               "please", "in the office",
+               # upper-case words that are not ASCII: never an abbreviation
+               "\u00c9T\u00c9", "\u00dcBER uns", "\u041c\u0421\u041a"]
 
 
 def TARGET_FILES(cls):
@@ -144,6 +146,7 @@ def gen_zone(rng):
                        "local", "local", "local_ambiguous", "local_gap",
                        "utc", "utc",
                        "numeric", "numeric_named", "gmt_plus", "unknown",
+                       "local_with_offset",
                        "tzinfos_over_local", "tzinfos_over_utc", "none"])
     op = ["zone", kind, [2003, rng.randrange(1, 13), rng.randrange(1, 29),
                          rng.randrange(24), rng.randrange(60),
@@ -155,6 +158,10 @@ def gen_zone(rng):
         op.append(rng.choice(TZINFOS_NAMES))
     elif kind in ("local", "local_ambiguous", "local_gap"):
         op.append(rng.randrange(2))
+    elif kind == "local_with_offset":
+        op.append(rng.randrange(2))
+        op.append(rng.choice(["name offset", "offset (name)"]))
+        op.append(rng.choice([3600, -18000, -14400, 7200, 39600]))
     elif kind == "utc":
         op.append(rng.choice([" UTC", " Z", "Z", " GMT", " z", " +00:00",
                               "+00:00", " -0000", " +00"]))
@@ -584,6 +591,23 @@ def do_zone(env, ctx, op):
         text = base + " " + name
         expect = ("local", name, kind == "local_ambiguous") \
             if kind != "local_gap" else ("local_gap", name)
+    elif kind == "local_with_offset":
+        # a local abbreviation AND a numeric offset in one text (what
+        # strftime("%Z %z") prints): local names come first in the
+        # documented order, so the result carries the local zone
+        lnames = TZ_SETTINGS[env.tzi][1]
+        if not lnames:
+            return False
+        name = lnames[op[4] % len(lnames)]
+        if name not in names_local or name in ("UTC", "GMT"):
+            return False
+        a = abs(op[6])
+        num = "%s%02d%02d" % ("-" if op[6] < 0 else "+", a // 3600,
+                              a % 3600 // 60)
+        text = base + (" %s %s" % (name, num) if op[5] == "name offset"
+                       else " %s (%s)" % (num, name))
+        expect = ("local_kind", name)
+        tag = "tz.local_name_with_offset"
     elif kind == "utc":
         form = op[4]
         text = base + form
@@ -694,7 +718,7 @@ def do_zone(env, ctx, op):
         ok = isinstance(got.tzinfo, tz.tzoffset) and \
             got.utcoffset().total_seconds() == off and \
             got.tzname() == name
-    elif k == "local_gap":
+    elif k in ("local_gap", "local_kind"):
         ok = isinstance(got.tzinfo, tz.tzlocal)
     elif k == "local":
         _, name, ambiguous = expect
